@@ -1,0 +1,170 @@
+//go:build verif
+
+package ggql
+
+// vSeq is a ghost type: an abstract finite sequence of integers (bytes written to a writer, decoded items). It exists
+// only under the build tag verif and has no values at run time.
+type vSeq struct{ _ int }
+
+//@ -- ================================================================== C07 / C18 JSON string writer
+//@ -- Ghost output of a writer: the sequence of bytes handed to Write so far.
+//@ spec snoc(q vSeq, b int) vSeq
+//@ ghostmap #out io.Writer -> vSeq
+//@ -- number of Write calls that reported an error (a response written to a failing writer is not claimed to be JSON)
+//@ ghostmap #werr io.Writer
+//@ interface io.Writer.Write
+//@   results n, err
+//@   ghost #out[recv] ++= p
+//@   ghost #werr[recv] += ite(err != nil, 1, 0)
+//@   assigns #out, #werr
+//@ spec noWriteError(w io.Writer) bool = #werr[w] == old(#werr[w])
+
+//@ -- A reference lexer for JSON string tokens (RFC 8259, section 7), run over the ghost output. jst is its state after
+//@ -- the bytes q: 10 outside a string, 0 inside, 1 after a backslash, 2..5 inside \uXXXX with 4..1 hex digits to go,
+//@ -- 9 rejected. jdec is the sequence decoded so far: every unescaped byte as itself, every escape as the character it
+//@ -- denotes (\uXXXX as its code point); jacc accumulates the hex digits of a \u escape. Outside a string the lexer
+//@ -- accepts the bytes that JSON allows there (outsideOk) and a quote, which opens a string.
+//@ spec jst(q vSeq) int
+//@ spec jacc(q vSeq) int
+//@ spec jdec(q vSeq) vSeq
+//@ spec hexDigit(b int) bool = (48 <= b && b <= 57) || (97 <= b && b <= 102) || (65 <= b && b <= 70)
+//@ spec hexVal(b int) int = ite(b <= 57, b - 48, ite(b >= 97, b - 87, b - 55))
+//@ spec simpleEsc(b int) bool = b == 34 || b == 92 || b == 47 || b == 98 || b == 102 || b == 110 || b == 114 || b == 116
+//@ spec unEsc(b int) int = ite(b == 98, 8, ite(b == 102, 12, ite(b == 110, 10, ite(b == 114, 13, ite(b == 116, 9, b)))))
+//@ spec jstStep(s int, b int) int = ite(s == 10, ite(b == 34, 0, ite(outsideOk(b), 10, 9)), ite(s == 0, ite(b == 34, 10, ite(b == 92, 1, ite(b < 32, 9, 0))), ite(s == 1, ite(simpleEsc(b), 0, ite(b == 117, 2, 9)), ite(2 <= s && s <= 4, ite(hexDigit(b), s + 1, 9), ite(s == 5, ite(hexDigit(b), 0, 9), 9)))))
+//@ autoaxiom jstSnoc(q vSeq, b int) {jst(snoc(q, b))}: jst(snoc(q, b)) == jstStep(jst(q), b)
+//@ autoaxiom jaccSnoc(q vSeq, b int) {jacc(snoc(q, b))}: jacc(snoc(q, b)) == ite(jst(q) == 1, 0, jacc(q) * 16 + hexVal(b))
+//@ autoaxiom jdecSnoc(q vSeq, b int) {jdec(snoc(q, b))}: jdec(snoc(q, b)) == ite(jst(q) == 0 && b != 34 && b != 92 && b >= 32, snoc(jdec(q), b), ite(jst(q) == 1 && simpleEsc(b), snoc(jdec(q), unEsc(b)), ite(jst(q) == 5 && hexDigit(b), snoc(jdec(q), jacc(q) * 16 + hexVal(b)), jdec(q))))
+
+//@ -- items of a Go string as a JSON decoder delivers them: an ASCII rune as itself, any other rune as its UTF-8 bytes
+//@ -- (invalid input bytes range as U+FFFD, the documented exception)
+//@ spec runeItems(q vSeq, r int) vSeq = ite(r < 128, snoc(q, r), ite(utf8len(r) == 2, snoc(snoc(q, utf8byte(r, 0)), utf8byte(r, 1)), ite(utf8len(r) == 3, snoc(snoc(snoc(q, utf8byte(r, 0)), utf8byte(r, 1)), utf8byte(r, 2)), snoc(snoc(snoc(snoc(q, utf8byte(r, 0)), utf8byte(r, 1)), utf8byte(r, 2)), utf8byte(r, 3)))))
+//@ spec itemsOf(q vSeq, s string, pos int) vSeq
+//@ axiom itemsStart(q vSeq, s string): itemsOf(q, s, 0) == q
+//@ axiom itemsStep(q vSeq, s string, pos int): 0 <= pos && pos < len(s) ==> itemsOf(q, s, pos + runelen(s, pos)) == runeItems(itemsOf(q, s, pos), runeat(s, pos))
+
+//@ -- writeString(w, s, true) emits one JSON string token that a standard decoder reads back as exactly s
+//@ func writeString
+//@   props C07, C18
+//@   check panic {C03}
+//@   check frame {C07}
+//@   assigns fresh, #out, #werr
+//@   requires w != nil
+//@   ensures[werr-monotone] #werr[w] >= old(#werr[w])
+//@   ensures[json-string-token] withQuotes && noWriteError(w) && old(jst(#out[w])) == 10 ==> jst(#out[w]) == 10
+//@   ensures[decodes-to-s] withQuotes && noWriteError(w) && old(jst(#out[w])) == 10 ==> jdec(#out[w]) == itemsOf(old(jdec(#out[w])), s, len(s))
+//@   use itemsStart(old(jdec(#out[w])), s)
+//@   loop 0: invariant[pos] 0 <= strpos(0) && strpos(0) <= len(s)
+//@           invariant[no-error] err == nil
+//@           invariant[werr] #werr[w] >= old(#werr[w])
+//@           invariant[inside] withQuotes && noWriteError(w) && old(jst(#out[w])) == 10 ==> jst(#out[w]) == 0
+//@           invariant[decoded] withQuotes && noWriteError(w) && old(jst(#out[w])) == 10 ==> jdec(#out[w]) == itemsOf(old(jdec(#out[w])), s, strpos(0))
+//@           use itemsStep(old(jdec(#out[w])), s, strpos(0))
+
+//@ -- ------------------------------------------------------------------ JSON text: lexical validity of everything written
+//@ -- Outside string tokens only white space, structural characters and the characters of numbers and of the literals
+//@ -- true / false / null may appear (RFC 8259 sections 2, 3, 6).
+//@ spec outsideOk(b int) bool = b == 32 || b == 9 || b == 10 || b == 13 || b == 91 || b == 93 || b == 123 || b == 125 || b == 58 || b == 44 || (48 <= b && b <= 57) || b == 45 || b == 43 || b == 46 || b == 101 || b == 69 || b == 116 || b == 114 || b == 117 || b == 102 || b == 97 || b == 108 || b == 115 || b == 110
+//@ -- trusted facts about the reference lexer (each is an induction over the run of bytes): a run of bytes that are all
+//@ -- legal outside a string keeps the lexer outside; a run of plain string characters keeps it inside
+//@ autoaxiom jstOutsideRun(q vSeq, p []byte) {jst(seqcat(q, p))}: jst(q) == 10 && (forall i int {p[i]} :: 0 <= i && i < len(p) ==> outsideOk(p[i])) ==> jst(seqcat(q, p)) == 10
+//@ autoaxiom jstPlainRun(q vSeq, p []byte) {jst(seqcat(q, p))}: jst(q) == 0 && (forall i int {p[i]} :: 0 <= i && i < len(p) ==> p[i] >= 32 && p[i] != 34 && p[i] != 92) ==> jst(seqcat(q, p)) == 0
+
+//@ -- structural height of a value (recursion measure of the writers): values are finite trees, an element of a list and
+//@ -- an entry of a map are lower than the container (a cyclic value would make any printer diverge)
+//@ spec valH(v interface{}) int
+//@ axiom valHList(l []interface{}, i int): 0 <= i && i < len(l) ==> 0 <= valH(l[i]) && valH(l[i]) < valH(box(l))
+//@ axiom valHMap(m map[string]interface{}): forall k string {has(m, k)} :: 0 <= valH(m[k]) && valH(m[k]) < valH(box(m))
+
+//@ func isCollection
+//@   props C07
+//@   ensures[def] res <==> (is(v, []interface{}) || is(v, map[string]interface{}))
+//@   assigns nothing
+
+//@ -- in JSON mode two neighbouring elements are always separated by a comma
+//@ func elementSep
+//@   props C07, C18
+//@   check panic {C03}
+//@   results sep
+//@   ensures[json-comma] !sdl ==> len(sep) >= 1 && sep[0] == 44 && (len(sep) == 1 || (len(sep) == 2 && sep[1] == 32))
+//@   ensures[fresh] len(sep) == 0 || fresh(sep)
+//@   assigns fresh
+
+//@ func writeValue
+//@   props C07
+//@   check panic {C03}
+//@   requires w != nil
+//@   requires depth >= 0
+//@   ensures[json-lexical] !sdl && noWriteError(w) && old(jst(#out[w])) == 10 ==> jst(#out[w]) == 10
+//@   ensures[werr-monotone] #werr[w] >= old(#werr[w])
+//@   decreases{C03} valH(v)
+//@   decreases 1
+//@   assigns fresh, #out, #werr
+//@   loop 0: invariant[json-lexical] !sdl && noWriteError(w) && old(jst(#out[w])) == 10 ==> jst(#out[w]) == 10
+//@           invariant[json-separated] !sdl ==> (noSep <==> rangeindex < 0)
+//@           invariant[werr-monotone] #werr[w] >= old(#werr[w])
+//@           use valHList(as(v, []interface{}), rangeindex+1)
+
+//@ func writeMap
+//@   props C07
+//@   check panic {C03}
+//@   requires w != nil
+//@   requires depth >= 0
+//@   ensures[json-lexical] !sdl && noWriteError(w) && old(jst(#out[w])) == 10 ==> jst(#out[w]) == 10
+//@   ensures[werr-monotone] #werr[w] >= old(#werr[w])
+//@   decreases{C03} valH(box(m))
+//@   decreases 0
+//@   use valHMap(m)
+//@   assigns fresh, #out, #werr
+//@   loop 1: invariant[json-lexical] !sdl && noWriteError(w) && old(jst(#out[w])) == 10 ==> jst(#out[w]) == 10
+//@           invariant[werr-monotone] #werr[w] >= old(#werr[w])
+//@   loop 2: invariant[json-lexical] !sdl && noWriteError(w) && old(jst(#out[w])) == 10 ==> jst(#out[w]) == 10
+//@           invariant[werr-monotone] #werr[w] >= old(#werr[w])
+
+//@ -- ------------------------------------------------------------------ response envelope
+//@ spec errKey(k string) bool = k == "message" || k == "locations" || k == "path" || k == "extensions"
+//@ -- every error value of the library wraps a base error (resError, parseError, … construct it that way)
+//@ fieldinv Error.Base: v != nil
+//@ func formOneErrorResult
+//@   props C07
+//@   check panic {C03}
+//@   requires err != nil
+//@   results em
+//@   ensures[fresh] em != nil && fresh(em)
+//@   ensures[message] has(em, "message") && is(em["message"], string)
+//@   ensures[keys] forall k string {has(em, k)} :: has(em, k) ==> errKey(k)
+//@   ensures[locations-positive] has(em, "locations") ==> aserr(err) != nil && aserr(err).Line >= 1 && aserr(err).Column >= 1
+//@   assigns fresh
+
+//@ -- an error group never holds a nil entry (groups are built by appending non-nil errors)
+//@ typeinv Errors: forall i int {v[i]} :: 0 <= i && i < len(v) ==> v[i] != nil
+//@ func FormErrorsResult
+//@   props C07
+//@   check panic {C03}
+//@   requires err != nil
+//@   results list
+//@   ensures[group] is(err, Errors) ==> len(list) == len(as(err, Errors))
+//@   assigns fresh
+//@   loop 0: invariant[count] len(eList) == rangeindex + 1
+//@           invariant[bounds] rangeindex + 1 <= rangebound
+
+//@ func (*Root).ParseExecutableReader
+//@   props C07
+//@   check panic {C03}
+//@   requires root != nil
+//@   requires[finite-input] #rd <= #N
+//@   results exe, err
+//@   ensures[parsed] err == nil ==> exe != nil
+
+//@ -- the response is a map holding "data" and/or a non-empty "errors" list and nothing else
+//@ func (*Root).ResolveReader
+//@   props C07
+//@   check panic {C03}
+//@   requires root != nil && root.schema != nil
+//@   requires[finite-input] #rd <= #N
+//@   requires[unlocked] forall m int {held[m]} :: !held[m]
+//@   results res
+//@   ensures[is-map] res != nil
+//@   ensures[keys] forall k string {has(res, k)} :: has(res, k) ==> k == "data" || k == "errors"
+//@   ensures[not-empty] has(res, "data") || has(res, "errors")
+//@   ensures[errors-list] has(res, "errors") ==> is(res["errors"], []interface{})
